@@ -3,6 +3,6 @@ CONSTANTS
   Inputs = {"unformatted", "formatted", "invalid", "empty", "crlf", "nonl", "large"}
   Modes = {"write", "check", "check_unified", "check_json", "check_summary"}
   PathCases = {"none", "plain", "ign1", "ign2", "ign3", "ignfile", "ign_norespect", "cfgdir", "ecdir"}
-  Extras = {"none", "verify", "threads1"}
+  Extras = {"none", "verify", "threads1", "range_end"}
 INVARIANT Emit
 CHECK_DEADLOCK FALSE
